@@ -161,6 +161,13 @@ def copyEntry (a : Args) (srcSub : List Snap) (srcRel dstFinal : Path) (s : St) 
       | none => s.tree
     return { s with tree := tree ++ [node], notif := s.notif ++ [(target, false)], inodes := inodes }
 
+/-- the name a source argument contributes below an existing destination directory (`prepareTargetDir`:
+`filepath.Base` of the argument; repaired (F23): of the argument confined to the source root, so that `sub/..`, `..`
+denote the root itself). "/" and "." contribute nothing. -/
+def landName (fixed : Bool) (srcArg : Path) : Path :=
+  let b := if fixed then baseB (clean (sep :: srcArg)) else baseB srcArg
+  if b = [47] || b = [dot] then [] else b
+
 /-- does the source land INSIDE the destination path, under its own base name? (prepareTargetDir) -/
 def landsInside (cdc srcIsDir destExists destIsDir : Bool) : Bool :=
   (!cdc && srcIsDir && destExists) || (!srcIsDir && destExists && destIsDir)
@@ -177,7 +184,7 @@ def landing (a : Args) (srcIsDir : Bool) (dstTree : List Snap) (dstRel : Path) (
   | .ok t1 =>
     let dest := (findN t1 dstRel).map (·.st.isDir)
     some (if landsInside a.cdc srcIsDir dest.isSome (dest.getD false)
-      then joinP2 dstRel (let b := baseB a.src; if b = [47] || b = [dot] then [] else b) else dstRel)
+      then joinP2 dstRel (landName Fix.f23 a.src) else dstRel)
 
 /-- one source (already resolved to `srcRel`, named `srcArg` in the call) copied onto the working tree `t1`
 (parents of the destination argument already ensured) -/
@@ -191,7 +198,7 @@ def copyOne (a : Args) (srcTree : List Snap) (srcRel srcArg dstRel : Path) (s0 :
     let destExists := dest.isSome
     let destIsDir := dest.getD false
     let dstFinal := if landsInside a.cdc srcIsDir destExists destIsDir
-      then joinP2 dstRel (let b := baseB srcArg; if b = [47] || b = [dot] then [] else b) else dstRel
+      then joinP2 dstRel (landName Fix.f23 srcArg) else dstRel
     let target := if a.cdc && srcIsDir && !destExists then dstFinal else parentOf dstFinal
     match mkdirAll a t1 target with
     | .error w => .error w
